@@ -626,7 +626,7 @@ def run(tier, is_known):
     probes = {"paths": 0}
     for ad, depth in ads:
         t1 = time.time()
-        r = engine.bfs(ad, depth, state_budget=50000, time_budget=3000 if tier == "thorough" else 200, is_known=is_known)
+        r = engine.bfs(ad, depth, state_budget=50000, time_budget=3000 if tier == "thorough" else 1200, is_known=is_known)
         viols += r.violations
         states += r.states
         trans += r.transitions
